@@ -157,7 +157,8 @@ class Recorder:
         except wire.WireError as ex:
             return None
         return {'id': m.id, 'flags': m.flags, 'resp': m.is_response, 'tc': m.tc,
-                'qs': [[self.it.nb(q.name.text), q.type, 1 if q.cls & 0x8000 else 0, q.cls & 0x7FFF] for q in m.questions],
+                'qs': [[self.it.nb(q.name.text), q.type, 1 if q.cls & 0x8000 else 0, q.cls & 0x7FFF,
+                        1 if any(len(l.decode('utf-8', 'replace').encode('utf-8')) > 63 for l in q.name.labels) else 0] for q in m.questions],
                 'an': self.proj_records(m.answers), 'ns': self.proj_records(m.authorities),
                 'ar': self.proj_records(m.additionals), 'len': len(data)}
 
@@ -433,7 +434,15 @@ class Recorder:
         for k in st.get('auth', []):
             auth.append(tuple(k['rec'][:3]) + (k['ttl'], self._rd(k['rec'])))
         flags = 0x0200 if st.get('tc') else 0
-        return wire.build(id_=st.get('qid', 0), flags=flags, questions=qs, answers=ans, authorities=auth)
+        data = wire.build(id_=st.get('qid', 0), flags=flags, questions=qs, answers=ans, authorities=auth)
+        if st.get('badq'):
+            # one more question, for a name with a label that is not UTF-8: 30 octets on the wire, 90 when decoded with replacement
+            # characters and encoded again -- it cannot be echoed in a legacy unicast reply
+            qlen = sum(len(wire.enc_name(n)) + 4 for n, _, _ in qs)
+            extra = bytes([30]) + b'\xff' * 30 + b'\x05local\x00' + bytes([0, 1, 0, 1])
+            at = 12 + (qlen if st['badq'] == 2 else 0)
+            data = data[:4] + (len(qs) + 1).to_bytes(2, 'big') + data[6:at] + extra + data[at:]
+        return data
 
     @staticmethod
     def _rd(rec: list) -> Any:
@@ -664,6 +673,8 @@ def gen_query(rng: random.Random, svcs: List[dict], focus: str) -> dict:
     legacy_p = {'c03': 0.7, 'c11': 0.35, 'c12': 0.1, 'c08': 0.15}.get(focus, 0.2)
     if rng.random() < legacy_p:
         st['port'] = rng.choice([40000, 1024, 65535, 5354])
+        if rng.random() < ({'c11': 0.12, 'c15': 0.1}.get(focus, 0.03)):
+            st['badq'] = rng.choice([1, 2])
     two = [sp for sp in svcs if len(ADDR_SETS[sp['addrs']][0]) > 1]
     if two and rng.random() < 0.3:
         # a host with several addresses of one family, asked for by a querier that knows some of them: the others are answered
